@@ -359,6 +359,8 @@ def write_scsv_header(stream, schema, comments=None):
     stream.write("schema:" + os.linesep)
     delimiter = schema["delimiter"]
     missing = schema["missing"]
+    delimiter = str(delimiter).replace("'", "''")  # YAML single-quote escaping.
+    missing = str(missing).replace("'", "''")
     stream.write(f"  delimiter: '{delimiter}'{os.linesep}")
     stream.write(f"  missing: '{missing}'{os.linesep}")
     stream.write("  fields:" + os.linesep)
@@ -366,7 +368,8 @@ def write_scsv_header(stream, schema, comments=None):
     for field in schema["fields"]:
         name = field["name"]
         kind = field.get("type", _SCSV_DEFAULT_TYPE)
-        stream.write(f"    - name: {name}{os.linesep}")
+        # Quote, otherwise YAML re-types names like 'on', 'null' or 'true'.
+        stream.write(f"    - name: '{name}'{os.linesep}")
         stream.write(f"      type: {kind}{os.linesep}")
         if "unit" in field:
             unit = field["unit"]
